@@ -17,7 +17,7 @@ RULE = (
     "Rules per field: kafka_type is a known primitive and names the declared Python type (int8->i8 ... string->str or a "
     "kio.schema.types subclass, records->Records, uuid->uuid.UUID|None, error_code->ErrorCode, timedelta_i32/_i64, "
     "datetime_i64->TZAware); struct fields carry no kafka_type and reference a dataclass of the same module; nullable "
-    "only for string/bytes/records/uuid/datetime_i64/arrays/structs; arrays are tuple[X, ...]; explicit defaults "
+    "only for string/bytes/records/uuid/datetime_i64/arrays/structs; arrays are tuple[X, ...] with non-Optional elements (except uuid, whose zero value kio models as None); explicit defaults "
     "inhabit the declared type (None only if nullable, () only for arrays); tags are unique non-negative ints, only "
     "on flexible classes, each with an explicit or derivable default; class vars present. Per class: entity_reader and "
     "entity_writer build, the all-zero instance and the defaults-only instance round-trip, and the raw field descriptions "
@@ -108,8 +108,10 @@ def check_class(path: str) -> tuple[int, list, list]:
         null_ok = f.array or f.kind == "struct" or f.kind in D.NULLABLE_KINDS
         if f.nullable and not null_ok:
             out.append((f"nullable-without-wire-null:{f.kind}", f"{fid}: {f.kind} has no wire-level null"))
-        if f.array and f.item_nullable and f.kind not in D.NULLABLE_KINDS:
-            out.append((f"nullable-item-without-wire-null:{f.kind}", f"{fid}"))
+        if f.array and f.item_nullable and f.kind != "uuid":
+            # Kafka arrays have no per-element null form (the element codecs are the non-nullable ones); the only
+            # Optional elements kio declares are uuids, whose all-zero value it models as None
+            out.append((f"nullable-item-without-wire-null:{f.kind}", f"{fid}: elements declared Optional, but array elements of kind {f.kind} have no null form on the wire"))
         if f.has_default:
             d = f.default
             if d is None:
